@@ -297,12 +297,13 @@ func checkMain(args []string) int {
 		if onlyRe != nil && !onlyRe.MatchString(j.Name()) {
 			continue
 		}
-		j.Opts = map[string]int64{"timeout": 10000, "preempt": 2, "witnesses": 2, "maxpaths": 50000}
+		j.Opts = map[string]int64{"timeout": 10000, "preempt": 2, "witnesses": 2, "maxpaths": 50000, "maxseconds": 900}
 		if tier == "thorough" {
 			j.Opts["timeout"] = 60000
 			j.Opts["preempt"] = 3
 			j.Opts["witnesses"] = 4
 			j.Opts["maxpaths"] = 400000
+			j.Opts["maxseconds"] = 3000
 		}
 		for k, v := range sp.Opts {
 			if strings.HasPrefix(k, "thorough_") {
